@@ -164,18 +164,23 @@ impl World {
                         U14::new(msg[2] as u16),
                     );
                     // only the calls under test run inside the counted region
-                    if fac == "str" {
+                    let acc = [m.channel().get() as i64, m.msb_controller_number().get() as i64,
+                               m.lsb_controller_number().get() as i64, m.value().get() as i64];
+                    let bytes = if fac == "str" {
                         let a: [StructuredShortMessage; 2] = m.to_short_messages();
                         [a[0].to_bytes(), a[1].to_bytes()]
                     } else {
                         let a: [RawShortMessage; 2] = m.into();
                         [a[0].to_bytes(), a[1].to_bytes()]
-                    }
+                    };
+                    (acc, bytes)
                 });
                 put(&mut ev, "al", json!(al));
                 put(&mut ev, "pan", json!(built.is_none()));
+                // what the constructed message reports back about itself
+                put(&mut ev, "acc", json!(built.map(|x| x.0.to_vec()).unwrap_or_default()));
                 let bytes: Vec<Value> = built
-                    .map(|a| a.iter().map(|b| json!([b.0, b.1.get(), b.2.get()])).collect())
+                    .map(|a| a.1.iter().map(|b| json!([b.0, b.1.get(), b.2.get()])).collect())
                     .unwrap_or_default();
                 put(&mut ev, "bytes", Value::Array(bytes.clone()));
                 sink(ev);
